@@ -265,14 +265,54 @@ func (r *Run) lastSeqOfLineage0(u *UpCall) uint64 {
 	return last
 }
 
+// oneTransientReadFault: the only fault of the run is a single Get of the store that failed with an error (no
+// bytes changed, no write refused), one client, nothing in the background. Whichever read it was - the index
+// when the request came in, the entry, the index again after the origin answered - the exchange it hit may
+// go to the origin for it, but what is stored for other variants is not touched.
+func (r *Run) oneTransientReadFault() *StoreOp {
+	n := 0
+	for k, v := range r.Faults {
+		switch {
+		case strings.HasPrefix(k, "net.") || k == "disk.short-read":
+		case k == "store.get.err" || k == "store.get.timeout":
+			n += v
+		default:
+			return nil
+		}
+	}
+	if n != 1 || len(r.Scn.Clients) != 1 {
+		return nil
+	}
+	for _, u := range r.Calls {
+		if !u.Fg {
+			return nil
+		}
+	}
+	for _, s := range r.Store {
+		if s.Fault != "" {
+			return s
+		}
+	}
+	return nil
+}
+
 func judgeExpectedHits(r *Run, j *Judged, cl []*cls, by map[int]*OResp) {
-	if !r.faultFree() || r.Crashes > 0 || r.Sim.Hung {
+	var faulted *StoreOp
+	if !r.faultFree() {
+		if faulted = r.oneTransientReadFault(); faulted == nil {
+			return
+		}
+	}
+	if r.Crashes > 0 || r.Sim.Hung {
 		return
 	}
 	for xi, cx := range cl {
 		x := cx.e
 		if !x.Returned || cx.method != "GET" || x.Req.Header.Get("Range") != "" || x.Err != "" || x.Panic != "" {
 			continue
+		}
+		if faulted != nil && faulted.Seq > x.SeqInv && faulted.Seq < x.SeqRet {
+			continue // the exchange whose own read failed
 		}
 		if x.Req.Header.Get("If-None-Match") != "" || x.Req.Header.Get("If-Modified-Since") != "" {
 			continue
